@@ -13,3 +13,4 @@ INVARIANT Drift_Refusal
 INVARIANT Drift_ListRepr
 INVARIANT Drift_MapRepr
 INVARIANT Drift_StateRepr
+INVARIANT TokenizeListOK
